@@ -111,7 +111,7 @@ def cut(data, points):
     return [c for c in out if c]
 
 
-def chunkings(head, body, r, single_cut_limit=96, n_random=2, one_byte_limit=6000):
+def chunkings(head, body, r, single_cut_limit=96, n_random=2, one_byte_limit=3500):
     """Network chunkings of head+body: whole, head|body, every single cut of the body for short streams, 1-byte, random multi-cuts."""
     res = [("whole", [head + body]), ("headbody", [head] + ([body] if body else []))]
     if len(body) <= single_cut_limit:
